@@ -188,3 +188,8 @@ def run(ctx, rep):
                     pay = blk
         ok = pay is not None and success_dominates(ab, enc[0], acc[0].bb) and (ab.dominates(pay, acc[0].bb))
         rep.ob('R16.g', SYS + '::append_messages', 'size accumulated after encryption', ok, acc[0].where(), 'batch_size += message.get_size_bytes() after the payload was replaced by its ciphertext' if ok else 'the size of a message is accounted before its payload is replaced by the (longer) ciphertext')
+
+    # ------------------------------------------------------------ R16.h the shared counters go down the hierarchy to the level they belong to
+    rep.rule('R16.h', 'the shared size / message / segment counters handed to Topic::create, Partition::create and Segment::create reach the parameter of their own kind and level, at run time and at load (a counter passed in a sibling slot adds every loaded segment to the wrong level or twice to one level)', floor=40, analysis='A13')
+    import idkinds as idk_
+    idk_.check_counter_kinds(ctx, rep, 'R16.h', ['server::streaming::'])
